@@ -64,7 +64,8 @@ class Model:
     """
 
     def __init__(self, orbs, seed=0, braket=None, diag=(), symbols=None,
-                 spin_conserving=(), small=7):
+                 spin_conserving=(), small=7, alias=None):
+        self.alias = alias
         self.orbs = orbs
         self.seed = seed
         self.braket = dict(braket or {})
@@ -78,6 +79,8 @@ class Model:
         return Fraction(v if v != 0 else 1)
 
     def antisym(self, name, upper, lower, symmetric=False):
+        if self.alias is not None:
+            name = self.alias(name)
         u, su, ru = _sort_sign(upper)
         lo, sl, rl = _sort_sign(lower)
         if symmetric:
